@@ -78,12 +78,13 @@ CLAIMED = {
         "name: raw copy succeeds, the sink becomes old bytes ++ local header ++ the source bytes verbatim (nothing before is "
         "touched, the compressor and checksum functions are never consulted), the record kept for the directory carries the "
         "source's method, CRC-32, sizes, timestamp and Unix mode (fix D18), and closing the entry rewrites and recomputes "
-        "nothing.  Correspondence: every entry of sources from the independent builder (decodable and undecodable methods, "
+        "nothing; the reader's find_content on the copied entry locates exactly those bytes, whatever follows (raw read of "
+        "the copy = raw read of the source, any method code, any size).  Correspondence: every entry of sources from the independent builder (decodable and undecodable methods, "
         "empty, data descriptors, DOS/Unix/other made-by, modes incl. setuid/000/symlink/dir, ZIP64 extras, prefix, odd "
         "times), the crate's writer (all methods x levels) and CPython zipfile, copied alone/first/last/between ordinary "
         "entries, renamed or not, plus random interleavings; archive bytes equal the model's; oracle: payload bytes equal "
         "(independent parser and by_index_raw), metadata equal, decodes to the same content, neighbours intact.",
-   note="Trusted: Coq kernel, extraction+driver, harness, genzip.py/zipfile producers, strictzip.py. The reader side (by_index_raw yields the csize bytes at the data start) is the reader model compared by correspondence, not a separate theorem.",
+   note="Trusted: Coq kernel, extraction+driver, harness, genzip.py/zipfile producers, strictzip.py. The reader side is C14_copied_bytes_found: find_content on the copied entry points exactly at the copied bytes, whatever is written behind them.",
    technique="Coq proof (raw copy on an ideal sink: verbatim bytes, source metadata, no recomputation) + byte-exact correspondence over independent sources",
    design="8 (C14)"),
  "C08": dict(
